@@ -412,8 +412,7 @@ func checkLength(roles *EmitterRoles, e *emitting, r *EmitRun, h HelperCall) str
 			return fmt.Sprintf("byte %d written is %s, helper received %s", j, absint.ValKey(v), h.Bytes[j])
 		}
 	}
-	res, _ := cp.Result.(*absint.Int)
-	if res == nil || ip.Ops.Add(n0, res).Lin.Key() != n1.Lin.Key() {
+	if !advancedByCopy(ip.Ops, n0, n1, cp, capSpec{o: ip.Ops, need: ip.Ops.Add(n0, absint.NewConst(n0.W, uint64(K), n0.Signed)), cap: code.Len}) {
 		return fmt.Sprintf("n after = %s, want n + copied count", n1)
 	}
 	return ""
